@@ -31,7 +31,8 @@ add("C19", "RX+BSTR",
     "For every pattern of a bounded grammar, rendered through the current templates: for ALL segment values "
     "within the length bound the emitted helpers are mutual inverses, and the emitted regex language equals "
     "the pattern's reference language (bounded SMT verdict, counterexamples replayed on the emitted code); every resource "
-    "the API uses (incl. LRO-only and file-level ones) gets its helper pair.",
+    "the API uses (incl. LRO-only ones, file-level ones and ones defined in a dependency package) gets its helper pair; the "
+    "exact engine runs the emitted helper functions themselves.",
     "DESIGN.md section 5 C19",
     "Patterns are enumerated (grammar), values are symbolic up to the stated lengths; values are non-empty, "
     "delimiter-free ('/' allowed in trailing **), newline-free; trusted: z3, CPython sre parser, the RX/BSTR "
@@ -112,7 +113,7 @@ add("C20", "BSTR",
     "Formatter: for ALL strings of two bounded families fix_whitespace is idempotent, ends with exactly one newline and "
     "changes only trailing blanks / blank lines (normal-form equality, the surrogate for 'AST unchanged'). Docstring "
     "guard: for ALL texts within the bound the real rst()+wrap() output cannot terminate a triple-quoted literal early "
-    "(Python tokenizer rule encoded in z3). Re-flow: for ALL texts of two bounded families and several (width, indent, "
+    "(Python tokenizer rule encoded in z3), in every form (raw / trimmed) in which a template lets it meet the closing quotes. Re-flow: for ALL texts of two bounded families and several (width, indent, "
     "offset) settings the real wrap() never drops, duplicates or reorders a word and every output line fits the width "
     "(first line: width - offset) unless it is a single unbreakable word (textwrap replaced by a validated model). Comment "
     "selection: for ALL leading/trailing/detached comments within the bound the words of Metadata.doc are the words of the "
